@@ -257,7 +257,9 @@ var uriShapes = []uriShape{
 		return pick(r, "http://[::1]:8080/cb", "http://[::1]/cb?x=1", "http://[0:0:0:0:0:0:0:1]:7000/cb")
 	}},
 	{"loopback", "native", func(r *rand.Rand) string { return pick(r, "http://127.0.0.1:7777/cb?x=1", "http://localhost:3000/cb") }},
-	{"http-dev", "webdev", func(r *rand.Rand) string { return pick(r, "http://rp.example/cb", "http://rp.example/cb?a=1", "http://[::1]:8080/cb") }},
+	{"http-dev", "webdev", func(r *rand.Rand) string {
+		return pick(r, "http://rp.example/cb", "http://rp.example/cb?a=1", "http://[::1]:8080/cb")
+	}},
 	// builders only
 	{"script-scheme", "", func(r *rand.Rand) string {
 		return pick(r, "javascript:alert(1)//", "data:text/html,<script>alert(1)</script>", "vbscript:msgbox(1)", "JaVaScRiPt:alert(1)")
